@@ -170,6 +170,23 @@ func init() {
 		"net.ParseIP": func(fr *frame, a []value) value {
 			return fromBytes([]byte(net.ParseIP(a[0].(string))))
 		},
+		// net.IP.String goes through net/netip (package-level tables, unique.Handle):
+		// computed natively for concrete addresses
+		"(net.IP).String": func(fr *frame, a []value) value {
+			bs, ok := a[0].([]value)
+			if !ok {
+				return "<nil>"
+			}
+			ip := make(net.IP, len(bs))
+			for k, b := range bs {
+				c, isConc := b.(uint8)
+				if !isConc {
+					panic(unsupported("net.IP.String of a symbolic address"))
+				}
+				ip[k] = c
+			}
+			return ip.String()
+		},
 		"net.ParseCIDR": func(fr *frame, a []value) value {
 			ip, n, err := net.ParseCIDR(a[0].(string))
 			if err != nil {
